@@ -63,10 +63,14 @@ func runC16(o *opts) (*summary, error) {
 			days = append(days, [3]int{d.Year(), int(d.Month()), d.Day()})
 		}
 	}
-	for _, d := range [][3]int{{1, 1, 2}, {1, 1, 3}, {1, 12, 31}, {2, 1, 1}, {9998, 12, 31}, {9999, 1, 1}, {9999, 12, 30}, {9999, 12, 31}, {1999, 12, 31}, {2001, 1, 1}, {2022, 12, 31}, {2025, 1, 1}} {
+	for _, d := range [][3]int{{1, 1, 1}, {1, 1, 2}, {1, 1, 3}, {1, 12, 31}, {2, 1, 1}, {9998, 12, 31}, {9999, 1, 1}, {9999, 12, 30}, {9999, 12, 31}, {1999, 12, 31}, {2001, 1, 1}, {2022, 12, 31}, {2025, 1, 1}} {
 		days = append(days, d)
 	}
 	mk := func(d [3]int) (types.Date, M) {
+		// the first day of the range is also the zero value of the type
+		if d == [3]int{1, 1, 1} && rng.Intn(2) == 0 {
+			return types.Date{}, M{"y": 1, "m": 1, "d": 1}
+		}
 		// half of the values at a non-midnight clock in a foreign location: comparisons are by civil date
 		var t time.Time
 		if rng.Intn(2) == 0 {
@@ -93,7 +97,7 @@ func runC16(o *opts) (*summary, error) {
 		bs := [][3]int{}
 		for k := -2; k <= 2; k++ {
 			t := time.Date(d[0], time.Month(d[1]), d[2]+k, 0, 0, 0, 0, time.UTC)
-			if t.Year() < 1 || t.Year() > 9999 || (t.Year() == 1 && t.YearDay() == 1) {
+			if t.Year() < 1 || t.Year() > 9999 {
 				continue
 			}
 			bs = append(bs, [3]int{t.Year(), int(t.Month()), t.Day()})
@@ -131,7 +135,8 @@ func runC16(o *opts) (*summary, error) {
 		y, m, d := g.ymd()
 		grid = append(grid, [3]int{y, m, d})
 	}
-	for i := 0; i < n; i++ {
+	grid = append(grid, [3]int{1, 1, 1}, [3]int{1, 1, 2}, [3]int{9999, 12, 31})
+	for i := range grid {
 		row(grid[i], grid, "date-grid")
 	}
 
